@@ -123,6 +123,26 @@ def soup(prefix, K, closed=True):
                    bounds={'prefix': pre, 'suffix': suf, 'K': K})
 
 
+def empty_input():
+    """empty, blank-only, BOM-only and comment-only inputs return a database that renders"""
+    from harness.common import IntRange
+    DOCS = ['', ' ', '\n', '\ufeff', '\ufeff\n', '// c', '/* c */', '\t', '\r\n']
+
+    def body(a):
+        try:
+            db = docs.parse(DOCS[a['d']])
+            outcome = ('ok', db)
+        except Exception as e:
+            outcome = ('raise', e)
+        if outcome[0] == 'raise':
+            return 'a document without elements was rejected'
+        if type(outcome[1]).__name__ != 'Database':
+            return 'parsing did not return a database'
+        return _judge(a, None, '', outcome)
+
+    return Harness(body, [('d', IntRange(0, len(DOCS) - 1))], describe=lambda a: {'document': DOCS[a['d']]}, bounds={'documents': DOCS})
+
+
 def _count(element, inner, size=4):
     return (len(_token_spans(T.ELEMENTS[element], inner)) + size - 1) // size
 
@@ -143,6 +163,7 @@ def instances(tier):
                 if not quick or (inner and b % 8 == 0 and element != 'table'):
                     out.append({'name': f'{tag}/{element}/b{b}/K2', 'factory': 'replace_token',
                                 'params': {'element': element, 'batch': b, 'K': 2, 'inner': inner}, 'timeout': T1, 'native_limit': 80})
+    out.append({'name': 'empty_input', 'factory': 'empty_input', 'params': {}, 'timeout': T1, 'native_limit': 20})
     heavy = ('col_settings', 'col_type', 'col_type_paren', 'enum', 'project', 'group', 'default')
     for pfx in PREFIXES:
         for closed in ((True,) if pfx not in SUFFIXES else (True, False)):
